@@ -21,6 +21,9 @@ TRUSTED = ['float()/repr(float), json, textwrap.wrap, perlReToPythonRe: classes 
            'str.isspace / str.isprintable tables and string.printable are regenerated from the running CPython',
            'utils.safeEval is modelled for one string literal (escape decoding included); texts with more tokens after the literal, \\N{..} escapes and non-ASCII digits are outside the model (reported by the model as such, not compared)',
            'str.lower is modelled on ASCII; cased non-ASCII letters are only generated for classes that do not lower-case',
+           'reject-atomic table: set()/setValue() bodies are translated from the AST into check/error/assign programs (harness/tables/t15.py, fail-closed); '
+           'Value._setValue is the primitive "assign" (its callbacks, registered by plugins, are assumed not to raise); the call defaultHttpHeaders(None, None) '
+           'that follows the store in conf.HttpRequestLanguage/HttpUserAgents is whitelisted as non-raising',
            'Config.reset channel/network are re-stated in the harness (3 lines each) because the plugin commands need a live bot']
 ASSUMPTIONS = ['world.testing/log.testing off; locale encoding UTF-8; integers within 62 bits on the model wire',
                'private registry.Group trees and a scratch file; registry._cache/_lastModified are restored after every load']
@@ -240,6 +243,8 @@ CORPUS_FIXED = [
     {'op': 'reload', 'cls': 'conf.Databases', 'var': 'v', 'value': [3, ['x\\']], 'text': 'x\\', 'cur': None},        # C15.F24
     {'op': 'reload', 'cls': 'conf.Databases', 'var': 'v', 'value': [3, ['\xe9']], 'text': '\xe9', 'cur': None},        # C15.F24
     {'op': 'set', 'cls': 'conf.SocketTimeout', 'cur': None, 'text': '12345678901234'},                                # C15.F25
+    {'op': 'names', 'names': ['a\\', 'b']},                                                                          # C15.F26
+    {'op': 'names', 'names': ['var', ':n\\', '#c']},                                                                 # C15.F26
     {'op': 'reload', 'cls': 'registry.Json', 'var': 'v', 'value': [0, '"a"'], 'text': '"a"', 'cur': None},              # C15.F16: Json is not quoted
 ]
 
@@ -314,6 +319,9 @@ def check_names(ctx, ns, mo):
         mm = [wire.s(mo[0]), wire.r(mo[1], wire.ls)]
         if mm[1] != ('raise', 'OtherError') and mm != [j, sp]:
             ctx.disagree(inp, mm, [j, sp], 'join / split(join)')
+    # direct: split inverts join for every non-empty list of encodable names
+    if ns and sp != ('ok', ns) and not any(0xd800 <= ord(c) <= 0xdfff for n in ns for c in n):
+        ctx.fail(inp, 'split(join(%r)) = %r (joined: %r)' % (ns, sp, j))
 
 
 def check_split(ctx, text, mo):
@@ -769,6 +777,8 @@ def _run(ctx):
         ctx.case('corpus-fixed', inp)
         if inp['op'] == 'reload':
             do_reload(ctx, inp)
+        elif inp['op'] == 'names':
+            check_names(ctx, inp['names'], None)
         elif inp['op'] == 'set':
             sub = type(ctx)(ctx.pid, ctx.tier, ctx.seed, {'model_ok': False})
             check_class_text(sub, inp['cls'], inp.get('cur'), inp['text'], 'v', None)
@@ -908,6 +918,8 @@ def replay(ctx, inp):
     op = inp.get('op')
     if op == 'prim':
         check_prim(sub, inp['s'], None, 'replay')
+    elif op == 'names':
+        check_names(sub, inp['names'], None)
     elif op == 'set':
         check_class_text(sub, inp['cls'], inp.get('cur'), inp['text'], inp.get('var', 'v'), None)
         sub.failures = [f for f in sub.failures if f['input'].get('op') == 'set']
